@@ -4,7 +4,7 @@
    evaluates the specification (round-trip equality / literal value and
    range) on the implementation's output. *)
 From Coq Require Import List NArith ZArith Bool.
-From Dials Require Import Base.Outcome Base.Runes Text.Quote Text.Split Text.FlagHelpers.
+From Dials Require Import Base.Outcome Base.Runes Text.Quote Text.Split Text.FlagHelpers Text.ParseDuration.
 From Dials Require Export Text.ParseInt Text.ParseString.   (* constructors used by the cases files *)
 Import ListNotations.
 Open Scope N_scope.
@@ -34,7 +34,11 @@ Inductive c15case :=
 (* float / complex literals: no Gallina model (IEEE arithmetic is not modelled).  The harness
    compares dials with Go's own strconv at the target bit size (direct oracle) and reports
    whether they agreed; nothing is proved about these cases. *)
-| FloatDirect (agrees : bool).
+| FloatDirect (agrees : bool)
+(* parse.String(s, time.Duration) on arbitrary text *)
+| DurRaw (s : str) (impl : outcome Z)
+(* nanosecond count -> Duration.String() -> parse.String *)
+| DurRT (z : Z) (impl_str : str) (impl : outcome Z).
 
 Definition sw_of (w : N) : swidth :=
   match w with 0 => I8 | 1 => I16 | 2 => I32 | 3 => I64 | _ => IInt end.
@@ -99,6 +103,7 @@ Definition has_raw (s : str) : bool := existsb (fun c => raw_byte_base <=? c) s.
 Fixpoint pval_raw (v : pval) : bool :=
   match v with
   | VStr s => has_raw s
+  | VOpaque => true
   | VList l => existsb pval_raw l
   | VSet l => existsb has_raw l
   | VMss m => existsb (fun kv => has_raw (fst kv) || existsb has_raw (snd kv)) m
@@ -119,7 +124,8 @@ Definition z_list_eqb := list_eqb Z.eqb.
    model, and the case is in known-finding class k
    (1: a map key is the empty string - finding 9, only on a tree without the fix;
     2: empty integer slice - finding 10, only on a tree without the fix;
-    3: a map[string][]string key whose value slice is empty - finding 11) *)
+    3: a map[string][]string key whose value slice is empty - finding 11;
+    4: a duration text whose terms sum to 2^64 ns or more: time.ParseDuration's uint64 accumulator wraps) *)
 Definition verdict (spec_ok same_as_model : bool) (known : N) : N :=
   if spec_ok then (if same_as_model then 0 else 1)
   else if same_as_model && negb (known =? 0) then 10 + known else 3.
@@ -214,6 +220,23 @@ Definition check (c : c15case) : N :=
            | _ => if out_eqb pval_eqb impl model then 0 else 1
            end
   | FloatDirect agrees => if agrees then 0 else 3
+  | DurRaw s impl =>
+      if is_panic impl then 3
+      else if dur_inexact s then 0       (* a float64 fraction step the model does not determine *)
+      else
+        let model := parse_duration s in
+        let range_ok (neg : bool) (t : N) := if neg then t <=? two63 else t <=? two63 - 1 in
+        let signed (neg : bool) (t : N) := if neg then (- Z.of_N t)%Z else Z.of_N t in
+        let spec := match dur_spec s with
+                    | DVal neg t => if range_ok neg t then Ok (signed neg t) else Err 0
+                    | _ => Err 0
+                    end in
+        verdict (out_eqb Z.eqb impl spec) (out_eqb Z.eqb impl model)
+                (match dur_spec s with DVal _ t => if two64 <=? t then 4 else 0 | _ => 0 end)
+  | DurRT z istr impl =>
+      let mstr := dur_string z in
+      if negb ((- Z.of_N two63 <=? z)%Z && (z <? Z.of_N two63)%Z) then 1
+      else verdict (out_eqb Z.eqb impl (Ok z)) (str_eqb istr mstr && out_eqb Z.eqb impl (parse_duration mstr)) 0
   end.
 
 Fixpoint run_from (i : N) (cs : list c15case) : list (N * N) :=
